@@ -95,6 +95,24 @@ def main():
                 got = f"{type(e).__name__}:{str(e)[:40]}"
             if got != want:
                 fail("type_argument_dispatch", methods=list(names), passed=pk, got=got, expected=want, applicable=app)
+    # spellings of the special annotations: strings (from __future__ import annotations) and Annotated
+    from typing import Annotated
+
+    for label, ann, glb in (("string_type", "type", {}), ("string_Any", "Any", {"Any": typing.Any}), ("annotated_type", Annotated[type, "m"], {}), ("annotated_Any", Annotated[typing.Any, "m"], {})):
+        ov = Ovld(name="s")
+        g = dict(glb)
+        g["ANN"] = ann
+        exec(f"def m(x: {ann!r}):\n    return 'special'\n" if isinstance(ann, str) else "def m(x: ANN):\n    return 'special'\n", g)
+        ov.register(g["m"])
+        probes = [int, list[int], A] if "type" in label else [1, "s", A()]
+        for v in probes:
+            n += 1
+            try:
+                got = ov(v)
+            except TypeError as e:
+                got = "NOMETHOD" if str(e).startswith("No method") else "TypeError"
+            if got != "special":
+                fail(f"special_annotation_spelling[{label}]", passed=repr(v), got=got)
     # ordinary arguments in the same call keep dispatching on their class
     ov = Ovld(name="two")
 
